@@ -378,11 +378,23 @@ func (r *Run) Finish(rule string) int {
 	sort.Strings(sigs)
 	newViol := 0
 	knownSeen := []string{}
+	// every listed finding is announced, with the number of times this run actually observed it
+	ksigs := make([]string, 0, len(known))
+	for s := range known {
+		ksigs = append(ksigs, s)
+	}
+	sort.Strings(ksigs)
+	for _, s := range ksigs {
+		n := 0
+		if v := r.violations[s]; v != nil {
+			n = v.Count
+			knownSeen = append(knownSeen, s)
+		}
+		fmt.Printf("KNOWN-FINDING: property=%s %s: %s (observed %d times this run)\n", r.Prop, s, known[s], n)
+	}
 	for _, s := range sigs {
 		v := r.violations[s]
-		if what, ok := known[s]; ok {
-			fmt.Printf("KNOWN-FINDING: property=%s %s: %s (observed %d times this run)\n", r.Prop, s, what, v.Count)
-			knownSeen = append(knownSeen, s)
+		if _, ok := known[s]; ok {
 			continue
 		}
 		newViol++
